@@ -17,6 +17,8 @@ Proof.
 Qed.
 
 (* ---- inversion of a step ------------------------------------------------------ *)
+Local Opaque too_big.
+
 Record granted_step (cfg : scfg) (st : sstate) (t1 t2 : N) (e : env) (b : list N) (ans : answer)
                     (st' : sstate) (m r : dhcp) (ip secs : N) (k : kind) : Prop := {
   gs_decode : decode b = Ok m;
@@ -42,15 +44,37 @@ Proof.
   destruct (handle (step_in_of (snd st) e (walk_of cfg (request_of e m)) t2 (Some (ip, secs))) (leases_of (fst st)) m)
     as [[r|er] ldb] eqn:H1; [|discriminate].
   destruct (to_array (d_chaddr r)) as [[mac|]|x|kk] eqn:TA; try discriminate.
+  destruct (too_big r) eqn:BIG; [discriminate|].
   destruct (udp4_build (frame_args e m r mac)) as [f0|x|kk] eqn:UB; simpl in H; try discriminate.
   inversion H; subst. exists m, r, ip, secs, k, mac. split; [|split; [exact TA|exact UB]].
   constructor; simpl; auto. exists ldb. exact H1.
 Qed.
 
+(* a frame is only built for a reply that fits one UDP datagram *)
+Lemma frame_fits : forall cfg st t1 t2 e b ans st' f r,
+  server_step cfg st t1 t2 e b ans = Ok (st', Some f) ->
+  reply_of cfg st t2 e b ans = Some r -> lenN (encode r) <= 65507.
+Proof.
+  intros cfg st t1 t2 e b ans st' f r0 H R. unfold server_step in H. unfold reply_of in R.
+  destruct (decode b) as [m|x|kk] eqn:D; try discriminate.
+  destruct (handle (step_in_of (snd st) e (walk_of cfg (request_of e m)) t2 None) (leases_of (fst st)) m)
+    as [[r1|[]] ldb0] eqn:H0; try discriminate.
+  destruct (alloc_ok (fst st) (op_of cfg (walk_of cfg (request_of e m)) m) t1 t2 ans) as [d'|] eqn:A; [|discriminate].
+  destruct ans as [ip secs k| | | |]; try discriminate.
+  destruct (handle (step_in_of (snd st) e (walk_of cfg (request_of e m)) t2 (Some (ip, secs))) (leases_of (fst st)) m)
+    as [[r|er] ldb] eqn:H1; [|discriminate].
+  inversion R; subst r0.
+  destruct (to_array (d_chaddr r)) as [[mac|]|x|kk] eqn:TA; try discriminate.
+  destruct (too_big r) eqn:BIG; [discriminate|].
+  Local Transparent too_big. unfold too_big, MAX_UDP4_PAYLOAD in BIG. Local Opaque too_big.
+  apply N.ltb_ge in BIG. exact BIG.
+Qed.
+
 Lemma step_silent_inv : forall cfg st t1 t2 e b ans st',
   server_step cfg st t1 t2 e b ans = Ok (st', None) ->
   st' = st \/
-  exists m r ip secs k, granted_step cfg st t1 t2 e b ans st' m r ip secs k /\ to_array (d_chaddr r) = Ok None.
+  exists m r ip secs k, granted_step cfg st t1 t2 e b ans st' m r ip secs k /\
+                        (to_array (d_chaddr r) = Ok None \/ too_big r = true).
 Proof.
   intros cfg st t1 t2 e b ans st' H. unfold server_step in H.
   destruct (decode b) as [m|x|kk] eqn:D; try discriminate.
@@ -65,8 +89,11 @@ Proof.
   - destruct (handle (step_in_of (snd st) e (walk_of cfg (request_of e m)) t2 (Some (ip, secs))) (leases_of (fst st)) m)
       as [[r|er] ldb] eqn:H1; [|discriminate].
     destruct (to_array (d_chaddr r)) as [[mac|]|x|kk] eqn:TA; try discriminate.
-    + destruct (udp4_build (frame_args e m r mac)) as [f0|x|kk]; simpl in H; discriminate.
-    + inversion H; subst. right. exists m, r, ip, secs, k. split; [|exact TA].
+    + destruct (too_big r) eqn:BIG.
+      * inversion H; subst. right. exists m, r, ip, secs, k. split; [|right; exact BIG].
+        constructor; simpl; auto. exists ldb. exact H1.
+      * destruct (udp4_build (frame_args e m r mac)) as [f0|x|kk]; simpl in H; discriminate.
+    + inversion H; subst. right. exists m, r, ip, secs, k. split; [|left; exact TA].
       constructor; simpl; auto. exists ldb. exact H1.
   - (* NoAddress: the store is unchanged *)
     left. inversion H; subst. apply refused_store in A; [|congruence]. subst d'. destruct st; reflexivity.
@@ -90,15 +117,21 @@ Qed.
 
 Lemma silent_step_inert : forall cfg st t1 t2 e b ans st',
   server_step cfg st t1 t2 e b ans = Ok (st', None) ->
-  st' = st \/ exists m, decode b = Ok m /\ answerable (snd st) (e_serverip e) m /\ lenN (d_chaddr m) < 6.
+  st' = st \/ exists m, decode b = Ok m /\ answerable (snd st) (e_serverip e) m /\
+                        (lenN (d_chaddr m) < 6 \/
+                         exists r, reply_of cfg st t2 e b ans = Some r /\ MAX_UDP4_PAYLOAD < lenN (encode r)).
 Proof.
   intros. destruct (step_silent_inv _ _ _ _ _ _ _ _ H) as [E|[m [r [ip [secs [k [G TA]]]]]]]; [left; exact E|].
   right. exists m. split. exact (gs_decode _ _ _ _ _ _ _ _ _ _ _ _ _ G).
   destruct (gs_handle _ _ _ _ _ _ _ _ _ _ _ _ _ G) as [ldb HH].
   split. exact (who_is_answered _ _ _ _ _ HH).
-  pose proof (reply_echoes _ _ _ _ _ HH) as [_ [_ [Ech _]]]. rewrite <- Ech.
-  unfold to_array in TA. destruct (6 <=? lenN (d_chaddr r)) eqn:L; [discriminate|].
-  apply N.leb_gt in L. exact L.
+  destruct TA as [TA|BIG].
+  - left. pose proof (reply_echoes _ _ _ _ _ HH) as [_ [_ [Ech _]]]. rewrite <- Ech.
+    unfold to_array in TA. destruct (6 <=? lenN (d_chaddr r)) eqn:L; [discriminate|].
+    apply N.leb_gt in L. exact L.
+  - right. exists r. split.
+    + unfold reply_of. rewrite (gs_decode _ _ _ _ _ _ _ _ _ _ _ _ _ G), (gs_ans _ _ _ _ _ _ _ _ _ _ _ _ _ G), HH. reflexivity.
+    + Local Transparent too_big. unfold too_big in BIG. Local Opaque too_big. apply N.ltb_lt in BIG. exact BIG.
 Qed.
 
 (* ---- the address set does not depend on the initial option table ---------------- *)
@@ -231,10 +264,9 @@ Qed.
 
 Lemma step_no_panic : forall cfg st t1 t2 e b ans,
   rows_wf (fst st) ->
-  (forall r, reply_of cfg st t2 e b ans = Some r -> lenN (encode r) <= 65507) ->
   is_panic (server_step cfg st t1 t2 e b ans) = false.
 Proof.
-  intros cfg st t1 t2 e b ans W L. unfold server_step. unfold reply_of in L.
+  intros cfg st t1 t2 e b ans W. unfold server_step.
   pose proof (Proofs.DhcpCodec.decode_total b) as DT.
   destruct (decode b) as [m|x|kk]; [|reflexivity|discriminate DT].
   destruct (handle (step_in_of (snd st) e (walk_of cfg (request_of e m)) t2 None) (leases_of (fst st)) m)
@@ -245,7 +277,11 @@ Proof.
   - destruct (handle (step_in_of (snd st) e (walk_of cfg (request_of e m)) t2 (Some (ip, secs))) (leases_of (fst st)) m)
       as [[r|er] ldb]; [|reflexivity].
     unfold to_array. destruct (6 <=? lenN (d_chaddr r)); [|reflexivity].
-    pose proof (build_no_panic (frame_args e m r (takeN 6 (d_chaddr r))) (L r eq_refl)) as NP.
+    destruct (too_big r) eqn:BIG; [reflexivity|].
+    assert (L : lenN (encode r) <= 65507).
+    { Local Transparent too_big. unfold too_big, MAX_UDP4_PAYLOAD in BIG. Local Opaque too_big.
+      apply N.ltb_ge in BIG. exact BIG. }
+    pose proof (build_no_panic (frame_args e m r (takeN 6 (d_chaddr r))) L) as NP.
     destruct (udp4_build (frame_args e m r (takeN 6 (d_chaddr r)))) as [f0|x|kk]; [reflexivity|reflexivity|discriminate NP].
   - exfalso. exact (panicked_needs_bad_row _ _ _ _ _ W A).
 Qed.
@@ -276,6 +312,7 @@ Proof.
     destruct (handle (step_in_of (snd st) (se_env ev) (walk_of cfg (request_of (se_env ev) m)) (se_t2 ev) (Some (ip, secs)))
                      (leases_of (fst st)) m) as [[r|er] ldb]; [|discriminate H].
     destruct (to_array (d_chaddr r)) as [[mac|]|x|kk]; try discriminate H; [|inversion H; reflexivity].
+    destruct (too_big r); [inversion H; reflexivity|].
     destruct (udp4_build (frame_args (se_env ev) m r mac)); cbn [obind] in H; try discriminate H.
     inversion H. reflexivity. }
   rewrite S. repeat split; destruct fo; reflexivity.
